@@ -49,7 +49,8 @@ fn main() {
     // dominate the allocation and time measurements of the monitors
     std::env::set_var("RUST_BACKTRACE", "0");
     std::env::set_var("RUST_LIB_BACKTRACE", "0");
-    if lane != "A" && lane != "V" {
+    #[cfg(not(miri))]
+    if lane != "A" && lane != "V" && lane != "M" {
         // a runaway allocation becomes an allocation failure (process death attributed to the journalled case)
         // instead of taking the machine down; the sanitizer lanes need the address space for themselves
         let lim = libc::rlimit {
